@@ -10,35 +10,47 @@ from props import predicate, kv, unhex
 CONFIG = {
     "design_ref": "4.8",
     "technique": "Lean 4 proof: verified regex-inclusion decision procedure (Antimirov derivatives + checked "
-                 "simulation certificate) deciding, per (syntax, token kind), back-end token language (hand model of "
+                 "simulation certificate) deciding, per recogniser class, back-end token language (hand model of "
                  "rio_turtle / oxiri / oxilangtag / rio_xml / rdf-types recognisers) <= toolkit validator language "
-                 "(regexes regenerated from /repo on every run); back-end models tied to the real crates by a "
-                 "differential through minimal isolating documents; plus exploration (mutation corpus, deep nesting in "
-                 "child processes) of parser totality",
-    "level_text": "Proof (unbounded, all strings) of the token-language contract: for blank node labels, variable names "
-                  "and language tags emitted by the Rio back-ends, for generated JSON-LD labels, for every IRI / IRI reference "
-                  "checked by oxiri (N-Triples, N-Quads, generalized N-Quads, Turtle/TriG IRIREFs, RDF/XML IRI attributes), "
-                  "and for the configured base (Iri::new => oxiri::Iri::parse(..).unwrap() "
-                  "cannot fail), the back-end language is included in the validator language regenerated from /repo "
-                  "(soundness of the decision procedure kernel-checked; each per-regex obligation evaluated by native_decide). "
+                 "(regexes regenerated from /repo on every run), lifted to the function the driver executes per (syntax, "
+                 "token kind); wiring of validators / accessors regenerated from /repo and pinned by a theorem; back-end "
+                 "models tied to the real crates by a differential through minimal isolating documents; plus exploration "
+                 "(mutation corpus, parser options, chunked reads, base resolution, deep nesting in child processes) of parser totality",
+    "level_text": "Proof (unbounded, all strings) of the token-language contract: spec_contract — for every (syntax, token kind) "
+                  "of the safe list (blank node labels incl. the Turtle-family riog relabelling, variable names, language tags "
+                  "of the Rio back-ends and rio_xml, every IRI / IRI reference checked by oxiri: N-Triples, N-Quads, generalized "
+                  "N-Quads, Turtle/TriG IRIREFs, RDF/XML rdf:about / rdf:resource / rdf:datatype, datatypes; in subject, predicate, "
+                  "object, graph-name and quoted-triple positions) whatever the modelled back-end accepts is handed over as a string "
+                  "the validator regenerated from /repo accepts; generated JSON-LD labels; the configured base "
+                  "(Iri::new => oxiri::Iri::parse(..).unwrap() cannot fail). Soundness of the decision procedure is kernel-checked; each "
+                  "per-regex obligation is evaluated by native_decide. wiring_as_modelled pins what ties the regexes to validity in /repo "
+                  "(X::new is REGEX.is_match, new_unchecked validates under debug_assertions only and nowhere else do debug and release "
+                  "differ in the anchored files, which validator each rio accessor asserts). "
                   "Where the inclusion is FALSE (unvalidated prefixed names / GTriG IRIREFs / "
                   "RDF-XML qualified names, rdf:nodeID with trailing or double dots, Turtle-family object labels with a "
-                  "trailing dot) the full statement is refuted by a kernel-checked witness and reported as a finding with "
-                  "the witness document. rio/src/parser.rs error mapping: a small model (scripted back-end, failing callback), proved "
-                  "never to panic and to surface back-end errors as SourceError, tied to the three real Source wrappers by "
-                  "a differential with scripted rio_api parsers. Exploration-strength support ONLY (no proof) for the rest of the property: "
-                  "termination, panic-freedom and stack use of the third-party parsers (rio_turtle, rio_xml/quick-xml, "
+                  "trailing dot) the full statement is refuted by a kernel-checked witness (spec_contract_full_refuted and the per-class "
+                  "…_refuted theorems) and reported as a finding with the witness document. rio/src/parser.rs error mapping: a small "
+                  "model (scripted back-end, failing callback), proved for every script and every number of calls to terminate "
+                  "(exactly script.length non-end answers, then Ok(false) for ever), never to panic, and to report every back-end error "
+                  "as SourceError where it happened (glue_run_terminates / glue_run_no_panic / glue_run_faithful), tied to the three real "
+                  "Source wrappers by a differential with scripted rio_api parsers. Exploration-strength support ONLY (no proof) for the rest "
+                  "of the property: termination, panic-freedom and stack use of the third-party parsers (rio_turtle, rio_xml/quick-xml, "
                   "json-ld/json-syntax/iref) on arbitrary bytes is checked on a mutation corpus (every single-byte "
                   "deletion / insertion / flip / truncation of valid documents per syntax, invalid UTF-8, structural "
-                  "near-misses, cross-syntax input, random bytes, very long tokens) and on nesting depths 16..10^5 run in "
-                  "child processes, collecting every accessor of every yielded term in a dev build.",
+                  "near-misses, cross-syntax input, random bytes, very long tokens), each document also read through a 1..7-byte BufReader, "
+                  "JSON-LD under nine non-default option sets, references resolved against configured / in-document bases, and on nesting "
+                  "depths 16..10^5 run in child processes, collecting every accessor of every yielded term and what downstream code does with "
+                  "it (eq / cmp / hash / into_term / constituents / to_spo(g), against terms of every kind) in a dev build.",
     "level_note": "Trusted: hand models of third-party recognisers (lean/SophiaModel/Model/Backend.lean; std's "
                   "Ipv6Addr::from_str modelled as the RFC 3986 IPv6address production), tied by the `tok`/`trail`/`base` "
-                  "differential only; native_decide for the inclusion obligations; extract.py regex translator. JSON-LD "
-                  "IRIs (iref) and language tags (langtag crate) have no Lean model: exploration only. Behaviour after the "
-                  "first stream error (calling try_for_some_item again) is not explored. Harness is a dev build "
-                  "(debug assertions on), 8 MiB stack for nesting runs; release builds are not run.",
-    "tables": ["regexes"],
+                  "differential only; native_decide for the inclusion obligations; extract.py regex translator; the text patterns of "
+                  "tools/extractors/c08.py. JSON-LD IRIs (iref), language tags (langtag crate) and every RESOLVED reference (oxiri / iref "
+                  "resolution against a base) have no Lean model: exploration only, the oracle being the toolkit's own validators. "
+                  "Behaviour after the first stream error (calling try_for_some_item again) is not explored. Harness is a dev build "
+                  "(debug assertions on), 8 MiB stack for nesting runs; release builds are NOT run (the only debug/release switch of the "
+                  "anchored files is pinned by wiring_as_modelled; in a dev build the harness re-validates every string itself, so an "
+                  "invalid value that release would hand out silently is reported as accessor_panic / invalid_term).",
+    "tables": ["regexes", "parserwiring"],
     "lean_targets": ["SophiaProofs.Props.C08", "SophiaProofs.Audit.C08"],
     "theorems": ["rio_bnode_sub_validator", "rio_var_sub_validator", "rio_lang_sub_validator",
                  "jsonld_bnode_sub_validator", "base_unwrap_safe",
@@ -46,36 +58,59 @@ CONFIG = {
                  "gtrig_iri_sub_validator_refuted", "ttl_pname_sub_validator_refuted",
                  "xml_qname_sub_validator_refuted", "xml_nodeid_sub_validator_refuted",
                  "xml_nodeid_sub_validator_partial", "ttl_bnode_obj_sub_validator_refuted",
-                 "glue_no_unwrap", "glue_source_error", "glue_end"],
+                 "glue_no_unwrap", "glue_source_error", "glue_end",
+                 "riog_suffix_sub_validator", "ttl_bnode_disambiguated_sub_validator",
+                 "glue_run_terminates", "glue_run_no_panic", "glue_run_faithful",
+                 "specOf_contract", "spec_contract", "spec_contract_full_refuted", "wiring_as_modelled",
+                 "jsonld_bnode_pred_sub_validator_refuted", "jsonld_bnode_pred_sub_validator_partial"],
     "native_ok": ["rio_bnode_sub_validator", "rio_var_sub_validator", "rio_lang_sub_validator",
                   "jsonld_bnode_sub_validator", "base_unwrap_safe", "oxiri_abs_sub_validator",
-                  "oxiri_ref_sub_validator", "xml_nodeid_sub_validator_partial"],
+                  "oxiri_ref_sub_validator", "xml_nodeid_sub_validator_partial",
+                  "riog_suffix_sub_validator", "ttl_bnode_disambiguated_sub_validator", "specOf_contract", "spec_contract",
+                  "jsonld_bnode_pred_sub_validator_partial"],
     "trivial_re": r"^accepted=0( emitted=none)?$|^new=0$|^skip|^bad-",
-    "rule": "tok: tokens sampled from the validator regexes of /repo (HIR of BNODE_ID, VARNAME, LANG_TAG, IRI_REGEX, "
+    "rule": "One private PRNG stream per request family (seeded up-front from the run seed), so that an edit of one regex of /repo "
+            "cannot reshuffle the other families. "
+            "tok: tokens sampled from the validator regexes of /repo (HIR of BNODE_ID, VARNAME, LANG_TAG, IRI_REGEX, "
             "IRELATIVE_REF_REGEX read from the working tree), from Rust-side grammars of the back-end languages (name "
             "alphabets with every class boundary +-1, BCP47 shapes incl. grandfathered/private-use/extensions, PN_LOCAL "
             "with escapes), single-character mutants of both, and fixed corpora (IPv6 / IPvFuture shapes, empty segments, "
             "percent escapes, non-ASCII labels and tags); each driven through the smallest document isolating the "
-            "recogniser, rotating over the syntaxes that share it. trail: label/variable followed by '.'+non-name "
-            "non-ASCII character. base: Iri::new-accepted strings as configured base of Turtle/TriG/GTriG/RDF-XML parsers. "
+            "recogniser, rotating over the syntaxes that share it and over the POSITIONS that reach it: subject, predicate, object, "
+            "graph name (N-Quads column, TriG block label), constituent of a quoted triple (subject / object side), datatype, "
+            "RDF/XML rdf:about / rdf:resource / rdf:datatype / rdf:nodeID on node and property elements / xml:lang on both / typed node "
+            "elements, JSON-LD @id (subject, object, graph), @type, value @type, @vocab, term definitions, @language in value objects and "
+            "contexts, @direction under rdf_direction=i18n-datatype / compound-literal. trail: label/variable followed by '.'+non-name "
+            "non-ASCII character. base: Iri::new-accepted strings as configured base of Turtle/TriG/GTriG/RDF-XML parsers over a "
+            "document with relative references of every RFC 3986 5.4 shape in every resolved position. "
+            "rel (no model; oracle = validators): 34 bases x 75 references (normal and abnormal examples of RFC 3986 5.4, dot segments "
+            "above the root, IP literals, rootless bases, non-IRIs) and sampled ones, resolved against a configured base, @base / BASE / "
+            "xml:base, a second directive relative to the first, @prefix namespaces, rdf:ID, JSON-LD @base (in context, nested, with a "
+            "base option). "
             "glue: every script of <=3 parse_step calls over {0,1,2 items} x {ok, parser error} with the callback failing at "
             "each item (sampled in quick), through StrictRioTripleSource / StrictRioQuadSource / GeneralizedRioSource. "
-            "doc (exploration, no model): 19 valid seed documents over 8 syntaxes; every truncation, every single-byte "
+            "doc (exploration, no model): 21 valid seed documents over 8 syntaxes (JSON-LD incl. @direction, @json, @nest, @included, "
+            "language / id maps, scoped contexts, blank node predicates); every truncation, every single-byte "
             "deletion, per position random insertion (syntax characters of all formats, UTF-8 fragments valid and invalid) "
             "and bit flip / byte replacement, chunk deletion/duplication/reversal, cross-syntax input, random bytes; "
-            "1/8 of insertions also with a configured base. deep/long (exploration, child process): nesting of quoted "
-            "triples, collections, property lists, XML elements, JSON arrays/objects/@list/@graph at depths 16, 10^3 "
-            "(quick) .. 10^5 (thorough); tokens / statement counts of 10^5 (10^6 thorough). Non-trivial = the token was "
-            "accepted (or the case is an exploration case); distinct = distinct request lines",
+            "1/4 of insertions also with a configured base (4 shapes); every document is parsed twice, from the slice and through a "
+            "BufReader of 1..7 bytes; the 5 JSON-LD seeds and 120 sampled mutants each under 9 option sets (rdf_direction x2, "
+            "produce_generalized_rdf, ordered, base, expand context, processing mode 1.0, strict / relaxed expansion policy). "
+            "deep/long (exploration, child process with a wall-clock allowance; OOM / external kill / timeout = inconclusive, not a "
+            "failure): nesting of quoted triples, collections, property lists, XML elements, JSON arrays/objects/@list/@graph at depths "
+            "16, 10^3 (quick) .. 10^5 (thorough); tokens / statement counts of 10^5 (10^6 thorough). Every yielded term: all accessors, "
+            "then eq / cmp against itself and against a term of every kind, hash, into_term round trip, constituents / atoms, to_triple, "
+            "to_spo / to_spog. Non-trivial = the token was accepted (or the case is an exploration case); distinct = distinct request lines",
     "trusted_base": ["hand models of rio_turtle 0.8.6, oxiri 0.2.11, oxilangtag 0.1.6, rio_xml 0.8.6, rdf-types 0.15.4 token "
                      "recognisers in lean/SophiaModel/Model/Backend.lean (tied by differential only)",
                      "std::net::Ipv6Addr::from_str modelled as RFC 3986 IPv6address",
-                     "regex crate semantics for the supported syntax subset (C09 cross-checks the translator per case)"],
+                     "regex crate semantics for the supported syntax subset (C09 cross-checks the translator per case)",
+                     "tools/extractors/c08.py text patterns (a pattern that no longer matches yields false / \"?\" and fails wiring_as_modelled)"],
     "assumptions": ["dev build (debug assertions on, overflow checks on) as built by `cargo test`; nesting runs on an "
                     "8 MiB thread stack in a child process",
                     "streams are consumed as Source::try_for_each_item does: the first error ends the stream",
                     "JSON-LD without remote contexts (NoLoader)"],
-    "exec_timeout": 3000,
+    "exec_timeout": 20000,
 }
 
 
@@ -163,11 +198,41 @@ def _parts(failure):
     return t
 
 
+def _fam(syn):
+    """parser family of a (possibly configured) syntax name: jsonld@i18n -> jsonld"""
+    return syn.split("@", 1)[0]
+
+
+_BASE_KIND = {}
+for _k in ("iri_p", "iri_o", "iri_g", "iri_q", "iri_qo", "resource"):
+    _BASE_KIND[_k] = "iri"
+for _k in ("bnode_g", "bnode_q", "bnode_qo"):
+    _BASE_KIND[_k] = "bnode"
+for _k in ("pname_p", "pname_o", "pname_g", "pname_q", "pname_d"):
+    _BASE_KIND[_k] = "pname"
+for _k in ("dt_q", "datatype"):
+    _BASE_KIND[_k] = "dt"
+_BASE_KIND["nodeid_o"] = "nodeid"
+
+
+def _bk(kind):
+    """the recogniser behind a token kind (the same one reached through another position / attribute)"""
+    return _BASE_KIND.get(kind, kind)
+
+
 def _tok(failure):
     """(syn, kind, token) of a tok request, else None"""
     t = _parts(failure)
     if len(t) == 4 and t[0] == "tok":
         return t[1], t[2], unhex(t[3])
+    return None
+
+
+def _rel(failure):
+    """(syn, how, kind, base, ref) of a rel request, else None"""
+    t = _parts(failure)
+    if len(t) == 6 and t[0] == "rel":
+        return t[1], t[2], t[3], unhex(t[4]), unhex(t[5])
     return None
 
 
@@ -182,6 +247,34 @@ def _doc(failure):
 
 def _field(failure):
     return failure.get("field", ""), failure.get("detail", "")
+
+
+def _bad(failure, tag):
+    """The back-end strings of kind `tag` (i IRI, d datatype, b blank node label, l language tag, v variable) that
+    the toolkit's validators rejected in this run, as reported by the harness (`bad=` of the implementation reply;
+    the first six).  None when the reply carries none of that kind (older replay files, list cut off)."""
+    out = []
+    for tok in failure.get("impl", "").split():
+        if tok.startswith("bad="):
+            for e in tok[4:].split(","):
+                tg, _, h = e.partition(".")
+                if tg == tag:
+                    out.append(unhex(h))
+    return out or None
+
+
+def _all_bad(failure, tag, cond):
+    """every rejected string of kind `tag` satisfies `cond` (vacuously true when the reply lists none: the textual
+    rule of the predicate then decides alone).  This is what keeps a predicate NARROW: a known finding is "the back-end
+    hands over a string that is no IRI / label"; a validator that starts rejecting a string which IS one (an
+    independent RFC 3987 check, below) is a different, new failure even in the same document."""
+    b = _bad(failure, tag)
+    return b is None or all(cond(x) for x in b)
+
+
+def _iri_tag(failure):
+    """which `bad=` kind a FAIL.(accessor_panic|invalid_term)=(iri|datatype) field speaks about"""
+    return "d" if failure.get("detail") == "datatype" else "i"
 
 
 _TTL = ("ttl", "trig", "gtrig")
@@ -212,26 +305,38 @@ def _irirefs(text):
     return out
 
 
+def _prefixes(text):
+    """(name, namespace text) of the prefix directives of a Turtle-family document"""
+    return [(m.group(1), _unescape_iriref(m.group(2)))
+            for m in re.finditer(r"(?:@prefix|PREFIX)\s*([^\s<:]*):\s*<([^>\n\r]*)>", text, re.I)]
+
+
 @predicate
 def c08_gtrig_unvalidated_iriref(failure):
     """generalized TriG without base: IRIREF text is handed over without consulting an IRI parser
     (also as prefix namespace, then carried into every prefixed name)"""
     if _field(failure) not in _IRI_BAD_TERM:
         return False
+    tag = _iri_tag(failure)
     x = _tok(failure)
     if x:
         syn, kind, w = x
         if syn != "gtrig":
             return False
-        if kind == "iri":
-            return not iri_ref_ok(w)
+        if _bk(kind) == "iri":
+            return not iri_ref_ok(w) and _all_bad(failure, tag, lambda s: not iri_ref_ok(s))
         if kind == "pname_dt":
-            return not iri_ref_ok(w + "d")
+            return not iri_ref_ok(w + "d") and _all_bad(failure, tag, lambda s: not iri_ref_ok(s))
+        if _bk(kind) == "pname":
+            # the local part ran into a `<`: what follows was read as an (unvalidated) IRIREF
+            b = _bad(failure, tag)
+            return "<" in w and b is not None and all(not iri_ref_ok(s) for s in b)
         return False
     d = _doc(failure)
     if d:
         syn, text, has_base = d
-        return syn == "gtrig" and not has_base and any(not iri_ref_ok(i) for i in _irirefs(text))
+        return (syn == "gtrig" and not has_base and any(not iri_ref_ok(i) for i in _irirefs(text))
+                and _all_bad(failure, tag, lambda s: not iri_ref_ok(s)))
     return False
 
 
@@ -241,11 +346,22 @@ def c08_gtrig_relative_datatype(failure):
     debug_assert!(Iri::new(datatype)) fires (dev builds only; the release value is a valid IriRef)"""
     if _field(failure) != ("FAIL.accessor_panic", "datatype"):
         return False
+    rel_only = lambda s: iri_ref_ok(s) and not iri_ref_ok(s, absolute=True)   # noqa: E731
     x = _tok(failure)
-    if not x:
+    if x:
+        syn, kind, w = x
+        return syn == "gtrig" and kind == "pname_dt" and rel_only(w + "d") and _all_bad(failure, "d", rel_only)
+    r = _rel(failure)
+    if r:
+        # `@prefix p: <ref>` is resolved only when the document has a base; `cfg` without ... always has one
         return False
-    syn, kind, w = x
-    return syn == "gtrig" and kind == "pname_dt" and iri_ref_ok(w + "d") and not iri_ref_ok(w + "d", absolute=True)
+    d = _doc(failure)
+    if d:
+        syn, text, has_base = d
+        b = _bad(failure, "d")
+        return (syn == "gtrig" and not has_base and b is not None and all(rel_only(s) for s in b)
+                and any(rel_only(ns) or ns == "" for _, ns in _prefixes(text)))
+    return False
 
 
 # PN_CHARS_BASE / XML NameChar code points that are not RFC 3987 ucschar
@@ -255,22 +371,42 @@ _PN_BAD_CHARS = re.compile("[\uFFF0-\uFFFD\U0001FFFE\U0001FFFF\U0002FFFE\U0002FF
 @predicate
 def c08_pname_unvalidated(failure):
     """Turtle / TriG / GTriG prefixed names: namespace ++ local part is returned without IRI validation
-    (escaped `\\%`, `\\#`, `//` after a bare scheme, PN_CHARS outside ucschar such as U+FFFD)"""
+    (escaped `\\%`, `\\#`, `//` after a bare scheme, PN_CHARS outside ucschar such as U+FFFD; a namespace that
+    is an IRI only on its own, such as `http://[::1]` ++ `a`)"""
     if _field(failure) not in _IRI_BAD_TERM:
         return False
+    tag = _iri_tag(failure)
+    not_iri = lambda s: not iri_ref_ok(s, absolute=True)   # noqa: E731
     x = _tok(failure)
     if x:
         syn, kind, w = x
-        return syn in _TTL and kind == "pname" and not iri_ref_ok("x:" + w, absolute=True)
+        if syn not in _TTL or _bk(kind) != "pname":
+            return False
+        b = _bad(failure, tag)
+        if b is not None:
+            # what was handed over is `x:` ++ (a prefix of) the local part, and it is no IRI
+            return all(s.startswith("x:") and not_iri(s) for s in b)
+        return not_iri("x:" + w)
+    r = _rel(failure)
+    if r:
+        syn, how, kind, base, ref = r
+        b = _bad(failure, tag)
+        return syn in _TTL and kind == "prefix" and b is not None and all(s.endswith("a") and not_iri(s) for s in b)
     d = _doc(failure)
     if d:
         syn, text, _ = d
-        if syn not in _TTL:
+        if syn not in _TTL or not _all_bad(failure, tag, not_iri):
             return False
         # some prefixed name carries an escaped '%' or '#', or a name character that is no ucschar
         for m in re.finditer(r"(?<![<\w])[\w.\-]*:((?:[^\s<>\"',;()\[\]{}|^]|\\.)+)", text):
             loc = m.group(1)
             if re.search(r"\\[%#]", loc) or _PN_BAD_CHARS.search(loc):
+                return True
+        # or a rejected string is a declared namespace followed by a local part, and not written as an IRIREF
+        b = _bad(failure, tag) or []
+        refs = set(_irirefs(text))
+        for s in b:
+            if s not in refs and any(s.startswith(ns) and (name + ":") in text for name, ns in _prefixes(text)):
                 return True
         return False
     return False
@@ -287,14 +423,18 @@ def c08_xml_qname_unvalidated(failure):
     """RDF/XML: namespace name ++ local name of an element / attribute is used as IRI without validation"""
     if _field(failure) not in _IRI_BAD_TERM:
         return False
+    tag = _iri_tag(failure)
+    not_iri = lambda s: not iri_ref_ok(s, absolute=True)   # noqa: E731
     x = _tok(failure)
     if x:
         syn, kind, w = x
-        return syn == "xml" and kind == "xmlns" and not iri_ref_ok(w + "p", absolute=True)
+        local = {"xmlns": "p", "type": "T"}.get(kind)
+        return (syn == "xml" and local is not None and not_iri(w + local)
+                and _all_bad(failure, tag, lambda s: s == w + local))
     d = _doc(failure)
     if d:
         syn, text, _ = d
-        if syn != "xml":
+        if syn != "xml" or not _all_bad(failure, tag, not_iri):
             return False
         decls = {}
         for m in re.finditer(r"""xmlns(?::([^\s=]*))?\s*=\s*(?:"([^"]*)"|'([^']*)')""", text):
@@ -326,10 +466,12 @@ def c08_xml_nodeid_dots(failure):
     """RDF/XML: rdf:nodeID is any NCName (may end in '.' or contain '..'); BnodeId follows Turtle's BLANK_NODE_LABEL"""
     if _field(failure) not in (("FAIL.accessor_panic", "bnode_id"), ("FAIL.invalid_term", "bnode")):
         return False
+    if not _all_bad(failure, "b", _bad_dots):
+        return False
     x = _tok(failure)
     if x:
         syn, kind, w = x
-        return syn == "xml" and kind == "nodeid" and _bad_dots(w)
+        return syn == "xml" and _bk(kind) == "nodeid" and _bad_dots(w)
     d = _doc(failure)
     if d:
         syn, text, _ = d
@@ -347,6 +489,8 @@ def c08_ttl_bnode_trailing_dot(failure):
     """Turtle family, blank node in object position followed by '.' + non-ASCII non-name character:
     the triple is emitted with a label ending in '.', then the parser reports its error"""
     if _field(failure) != ("FAIL.accessor_panic", "bnode_id"):
+        return False
+    if not _all_bad(failure, "b", lambda s: s.endswith(".")):
         return False
     t = _parts(failure)
     if len(t) == 5 and t[0] == "trail":
@@ -377,12 +521,16 @@ def c08_generalized_empty_iriref(failure):
         return False
     x = _tok(failure)
     if x:
-        return x[0] in ("gnq", "gtrig") and x[1] in ("iri", "pname_dt") and x[2] == ""
+        return x[0] in ("gnq", "gtrig") and (_bk(x[1]) == "iri" or x[1] == "pname_dt") and x[2] == ""
     d = _doc(failure)
     if d:
         syn, text, has_base = d
         return syn in ("gnq", "gtrig") and not has_base and "dummy" in det and re.search(r"<>", text) is not None
     return False
+
+
+_IP_LITERAL = re.compile(r"//(?:[^/?#@]*@)?\[")
+_JSONLD_IRI_KINDS = ("iri", "iri_o", "type", "dtype", "graph", "vocab", "term")
 
 
 @predicate
@@ -395,12 +543,55 @@ def c08_jsonld_iref_wider(failure):
     x = _tok(failure)
     if x:
         syn, kind, w = x
-        return syn == "jsonld" and kind == "iri" and re.search(r"//(?:[^/?#@]*@)?\[", w) is not None and not iri_ref_ok(w, absolute=True)
+        if kind == "vocab":
+            w = w + "p"
+        return (_fam(syn) == "jsonld" and kind in _JSONLD_IRI_KINDS and _IP_LITERAL.search(w) is not None
+                and not iri_ref_ok(w, absolute=True))
+    r = _rel(failure)
+    if r:
+        syn, how, kind, base, ref = r
+        return (_fam(syn) == "jsonld" and "Invalid" in det
+                and any(_IP_LITERAL.search(s) and not iri_ref_ok(s) for s in (base, ref)))
     d = _doc(failure)
     if d:
         syn, text, _ = d
-        return (syn == "jsonld" and "Invalid" in det or False) and any(
-            re.search(r"//(?:[^/?#@]*@)?\[", s) and not iri_ref_ok(s, absolute=True) for s in re.findall(r'"([^"]*)"', text))
+        return (_fam(syn) == "jsonld" and "Invalid" in det or False) and any(
+            _IP_LITERAL.search(s) and not iri_ref_ok(s, absolute=True) for s in re.findall(r'"([^"]*)"', text))
+    return False
+
+
+_IPV4_TAIL_LITERAL = re.compile(r"//(?:[^/?#@]*@)?\[([0-9A-Fa-f:]*[0-9]+\.[0-9.]*)\]")
+
+
+def _short_ipv4_tail(s):
+    """an IP literal with a dotted-quad tail that is no IPv6 address (too few groups before the tail, no `::`)"""
+    for m in _IPV4_TAIL_LITERAL.finditer(s):
+        try:
+            ipaddress.IPv6Address(m.group(1))
+        except ValueError:
+            return True
+    return False
+
+
+@predicate
+def c08_jsonld_iref_ipv6_debug_assert(failure):
+    """JSON-LD: iref 2.2.3 parse_ipv6_literal accepts a dotted quad after fewer than six h16 groups without `::`
+    (`[1:2:3:4:5:1.2.3.4]`, `[1.2.3.4]`) and trips its own debug_assert_eq!(lhs_shift, 32) on it (dev builds)"""
+    f, det = _field(failure)
+    if f != "FAIL.parser_panic":
+        return False
+    msg = re.fullmatch(r"assertionleftrightfailedleft\d+right32", det) is not None
+    x = _tok(failure)
+    if x:
+        syn, kind, w = x
+        return _fam(syn) == "jsonld" and kind in _JSONLD_IRI_KINDS and _short_ipv4_tail(w)
+    r = _rel(failure)
+    if r:
+        syn, how, kind, base, ref = r
+        return _fam(syn) == "jsonld" and msg and (_short_ipv4_tail(base) or _short_ipv4_tail(ref))
+    d = _doc(failure)
+    if d:
+        return _fam(d[0]) == "jsonld" and msg and any(_short_ipv4_tail(t) for t in re.findall(r'"([^"]*)"', d[1]))
     return False
 
 
@@ -416,12 +607,15 @@ def c08_jsonld_langtag_empty_subtag(failure):
         return False
     x = _tok(failure)
     if x:
-        return x[0] == "jsonld" and x[1] == "lang" and _EMPTY_SUBTAG.search(x[2]) is not None
+        return _fam(x[0]) == "jsonld" and x[1] in ("lang", "dir_lang", "ctx_lang") and _EMPTY_SUBTAG.search(x[2]) is not None
     d = _doc(failure)
     if d:
-        return (d[0] == "jsonld" and "LANG_TAG" in det
+        return (_fam(d[0]) == "jsonld" and "LANG_TAG" in det
                 and any(_EMPTY_SUBTAG.search(t) for t in re.findall(r'"@language"\s*:\s*"([^"]*)"', d[1])))
     return False
+
+
+_ROOTLESS = re.compile(r"[A-Za-z][A-Za-z0-9+.\-]*:(?!/)")
 
 
 @predicate
@@ -431,12 +625,34 @@ def c08_jsonld_base_dotdot_overflow(failure):
     f, det = _field(failure)
     if f != "FAIL.parser_panic" or "subtractwithoverflow" not in det:
         return False
+    r = _rel(failure)
+    if r:
+        syn, how, kind, base, ref = r
+        return _fam(syn) == "jsonld" and _ROOTLESS.match(base) is not None and ".." in ref
     d = _doc(failure)
-    if not d or d[0] != "jsonld":
+    if not d or _fam(d[0]) != "jsonld":
         return False
     text = d[1]
     m = re.search(r'"@base"\s*:\s*"([^"]*)"', text)
-    return m is not None and re.match(r"[A-Za-z][A-Za-z0-9+.\-]*:(?!/)", m.group(1)) is not None and ".." in text
+    return m is not None and _ROOTLESS.match(m.group(1)) is not None and ".." in text
+
+
+@predicate
+def c08_jsonld_generalized_bnode_predicate(failure):
+    """JSON-LD with produce_generalized_rdf: a blank node identifier used as property keeps the label of the document
+    (properties are not relabelled); rdf_types::BlankId allows ':' in it, BnodeId::new does not"""
+    if _field(failure) not in (("FAIL.accessor_panic", "bnode_id"), ("FAIL.invalid_term", "bnode"), ("FAIL.invalid_term", "bnode_p")):
+        return False
+    if not _all_bad(failure, "b", lambda s: ":" in s):
+        return False
+    x = _tok(failure)
+    if x:
+        return x[0] == "jsonld@gen" and x[1] == "bnode_p" and ":" in x[2]
+    d = _doc(failure)
+    if d:
+        # some JSON string is a blank node identifier with a second ':' (a property key, or a term definition's @id)
+        return d[0] == "jsonld@gen" and re.search(r'"_:[^"]*:[^"]*"', d[1]) is not None
+    return False
 
 
 def _deep(failure):
@@ -476,6 +692,8 @@ _OBLIGATION_REQS = {
     "ttl_pname": [("ttl", "pname"), ("trig", "pname"), ("gtrig", "pname")],
     "xml_nodeid": [("xml", "nodeid")],
     "xml_qname": [("xml", "xmlns")],
+    "jsonld_bnode_pred": [("jsonld@gen", "bnode_p")],
+    "jsonld_bnode_pred_nocolon": [("jsonld@gen", "bnode_p")],
 }
 
 
